@@ -15,7 +15,7 @@ TRUSTED_BASE = [
     'hand models (Peg.v, Types.v, XmlGen.v, Post.v) tied to the code by the dict/e2e stages',
     'translators; extraction + driver; Python oracle (token alphabet is the generator\'s)',
 ]
-ASSUMPTIONS = ['the to_dict stage (parse tree -> dict) and footnote resolution are covered by the stages and the oracle, not by a conservation theorem',
+ASSUMPTIONS = ['the to_dict stage (parse tree -> dict) is covered by the stages and the oracle, not by a conservation theorem; the footnote-resolution theorem assumes the shape wfDx of its input (checked on the implementation by C14\'s oracle)',
                'a repeated attribute name in one {...} list keeps the later value only (by construction of the attribute dict)']
 
 TOKEN = re.compile(r'(?:w|tok|ש|م|é|\U0001F600z|q|\U00020BB7z|\U000E0101z)\d+z')
@@ -177,7 +177,9 @@ def replay(obj):
 LEVEL_TEXT = ('Proof over the Gallina pipeline model: (grammar stage, any grammar) a match consumes a prefix and its node spans exactly that prefix; '
               'an accepted tree covers the whole pre-parsed text; (XML stage) for EVERY dict tree the text nodes of the generated XML, in order, '
               'are exactly the text values and nums read from the dict - nothing lost, duplicated, reordered or invented; eId generation and '
-              '(under a stated no-tail condition) normalisation keep all text (C03_* theorems). Partial: conservation through to_dict and '
-              'through footnote resolution is decided by the unique-token oracle on the implementation and by the dict/e2e stages.')
+              '(under a stated no-tail condition) normalisation keep all text; footnote resolution keeps every element that is not an internal '
+              'placeholder block, with its attributes and its direct text, exactly once (C03_footnote_resolution_keeps_content, for trees of the '
+              'builder\'s shape) (C03_* theorems). Partial: conservation through to_dict is decided by the unique-token oracle on the '
+              'implementation and by the dict/e2e stages.')
 LEVEL_NOTE = 'Trusted: Coq kernel; hand models tied by sampling; translators; extraction+driver.'
 TECHNIQUE = 'Rocq proofs (span invariant of the PEG interpreter; list-equality induction over the XML builder) + differential run + unique-token oracle'
